@@ -133,12 +133,42 @@ def c2s(ctx, n):
                          sig_fn=_trace_sig, label="c2s-nw%d" % nw, timeout=ctx.pick(900, 3000))
 
 
+def selftest(ctx):
+    """non-vacuity of both binding directions on a fixed short run (machinery failure if it does not fire)"""
+    script = [("wait", [1, NOTO]), ("wait", [2, 1]), ("notify", [1]), ("wait", [3, NOTO]), ("advance", [1]), ("notify_all", [])]
+    cfg = {"kind": "cond", "style": 0}
+    real = CondEventReal(cfg, NW_GEN, style=0)
+    try:
+        ev = [{"a": a, "args": args, "obs": real.step(a, args)} for a, args in script]
+    finally:
+        real.close()
+
+    def corrupt(obs):
+        obs = dict(obs)
+        obs["st"] = list(obs["st"])
+        obs["st"][0] = "false" if obs["st"][0] != "false" else "true"
+        return obs
+    sync_paths.binding_selftest(ctx, "Trace_CondEvent", "Trace_CondEvent.cfg", {"NW": NW_GEN}, {"id": 1, "cfg": cfg, "ev": ev},
+                                corrupt, lambda e, p: replayer({"cfg": {"kind": "cond"}}, p))
+
+
+def _timed(ctx, name, t0):
+    import time
+    ctx.cov.setdefault("phases_s", {})[name] = round(time.time() - t0, 1)
+    return time.time()
+
+
 def run(ctx):
+    import time
+    t0 = time.time()
+    selftest(ctx)
+    t0 = _timed(ctx, "selftest", t0)
     # 1. model checking of the specification
     ctx.mc("sync", "CondEvent", "MC_CondEvent.cfg",
            overrides=ctx.pick({}, {"NW": 5, "Timeouts": "{0, 1, 2, 3, 999}", "MaxAdvance": 3, "MaxNotify": 4}),
            required_actions=["Wait", "Notify", "NotifyAll", "EvWait", "Set", "Clear", "Advance", "Cancel"],
            timeout=ctx.pick(900, 3000))
+    t0 = _timed(ctx, "mc", t0)
     # 2. spec -> code: all paths up to L over three alphabets
     rule = []
     for name, ov, lq, lt in GEN_FAMILIES:
@@ -150,12 +180,15 @@ def run(ctx):
         rule.append("%s: all sequences <= %d over Timeouts=%s MaxAdvance=%s notify(0..%s)" % (
             name, L, ov["Timeouts"], ov["MaxAdvance"], ov["MaxNotify"]))
     ctx.cov["exhaustive"] = True
+    t0 = _timed(ctx, "s2c-enum", t0)
     # long seeded walks through larger constants
     sync_paths.sim_replay(ctx, "Gen_CondEvent", "Gen_CondEvent.cfg", num=ctx.pick(600, 20000), depth=40,
                           overrides={"L": 40, "NW": NW_SIM, "Timeouts": "{0, 1, 2, 3, 999}", "MaxAdvance": 3, "MaxNotify": 4},
                           replayer=replayer_sim)
+    t0 = _timed(ctx, "s2c-sim", t0)
     # 3. code -> spec: random recorded runs validated by TLC
     c2s(ctx, ctx.pick(240, 4000))
+    t0 = _timed(ctx, "c2s", t0)
     ctx.cov["rule"] = ("paths: " + "; ".join(rule) + "; per object kind (Condition, Event); plus seeded TLC simulation "
                        "walks (depth 40, 20 waiters) and random recorded runs; distinct = distinct (config, operation "
                        "sequence); non-trivial = length >= 2 with a non-advance op")
